@@ -301,11 +301,20 @@ publish = false
 
 [dependencies]
 verif-rrt = { path = "%s/rrt" }
-sylvia = { path = "%s/sylvia", features = ["mt", "stargate", "iterator", "cosmwasm_1_1", "cosmwasm_1_2", "cosmwasm_1_3", "cosmwasm_1_4"] }
+%s = { package = "sylvia", path = "%s/sylvia", features = ["mt", "stargate", "iterator", "cosmwasm_1_1", "cosmwasm_1_2", "cosmwasm_1_3", "cosmwasm_1_4"] }
 """
 
 
-def generate(progs, out_dir, harness_dir, repo, shards, prefix, write_if_changed):
+def cargo_shard(name, harness_dir, repo, krate="sylvia"):
+    return CARGO_SHARD % (name, harness_dir, krate, repo)
+
+
+def rename_crate(src, krate):
+    """The same program text with the framework imported under another name (C19)."""
+    return src if krate == "sylvia" else src.replace("sylvia::", krate + "::")
+
+
+def generate(progs, out_dir, harness_dir, repo, shards, prefix, write_if_changed, krate="sylvia"):
     """Write the workspace; returns (list of (binary name, [program ids]), runtime program rows)."""
     rows = []
     for p in progs:
@@ -320,14 +329,18 @@ def generate(progs, out_dir, harness_dir, repo, shards, prefix, write_if_changed
         groups[i % shards].append(p)
     bins = []
     members = []
+    spans = {}
+    generate.spans = spans
     for gi, g in enumerate(groups):
         name = "%s%d" % (prefix, gi)
         members.append(name)
         d = os.path.join(out_dir, name)
-        write_if_changed(os.path.join(d, "Cargo.toml"), CARGO_SHARD % (name, harness_dir, repo))
+        write_if_changed(os.path.join(d, "Cargo.toml"), cargo_shard(name, harness_dir, repo, krate))
         src = ["// generated by harness/gen/routing.py from TLC's corpus -- do not edit\n"]
         for p in g:
-            src.append(program_src(p))
+            start = sum(x.count("\n") for x in src) + 1
+            src.append(rename_crate(program_src(p), krate))
+            spans[(name, p["id"])] = (start, sum(x.count("\n") for x in src))
         src.append("\nfn main() {\n    verif_rrt::main_with(&[%s]);\n}\n" % ", ".join("%s::vt()" % p["id"].lower() for p in g))
         write_if_changed(os.path.join(d, "src", "main.rs"), "".join(src))
         bins.append((name, [p["id"] for p in g]))
